@@ -140,6 +140,9 @@ pub enum POp {
     /// another miner extends the tip: a block proposing scenario tx t and nothing else, then, once the
     /// window opens, a block committing t and nothing else (only if that is legal on the chain)
     Foreign { t: usize, seed: u64 },
+    /// another miner finds a sibling of the tip (same parent, no more work: it stays a side block and
+    /// becomes an uncle candidate for the template that is being filled)
+    Sibling { seed: u64 },
 }
 
 #[derive(Clone, Debug, Serialize, Deserialize)]
@@ -172,6 +175,7 @@ pub fn generate(seed: u64, prop: &str) -> PoolScenario {
             cfg.max_block_cycles = *rl.pick(&[537u64, 1_073, 1_074, 1_137, 1_138, 1_611, 1_675]);
         }
     }
+    let mut c13_full = false;
     if prop == "C13" {
         // two runs out of five: consensus limits small enough for templates to reach them, so that
         // the block assembler's size / cycle / proposal accounting decides what fits
@@ -180,6 +184,12 @@ pub fn generate(seed: u64, prop: &str) -> PoolScenario {
             cfg.max_block_proposals = rl.range(1, 6);
             cfg.max_block_bytes = *rl.pick(&[1_200u64, 1_600, 2_400, 4_000]);
             cfg.max_block_cycles = crate::model::COST_ALWAYS_SUCCESS_VM0 * rl.range(2, 8);
+            if rl.chance(2, 3) {
+                // "full template" skeleton (below): enough proposals per block for the size limit to bind
+                cfg.max_block_proposals = rl.range(3, 6);
+                cfg.max_block_cycles = crate::model::COST_ALWAYS_SUCCESS_VM0 * rl.range(6, 40);
+                c13_full = true;
+            }
         }
     }
     let small_pool = r.chance(1, 3);
@@ -402,6 +412,36 @@ pub fn generate(seed: u64, prop: &str) -> PoolScenario {
         sk.push(POp::Quiesce);
         sk.push(POp::Mine);
         sk.extend(ops.drain(..).take(40));
+        ops = sk;
+    }
+    if c13_full {
+        // "full template" skeleton: the whole DAG waits in the pool, blocks are mined until the
+        // window is full of proposals and every template commits as much as the size limit admits;
+        // siblings of the tip arrive while a template is full (uncles join a filled template),
+        // proposals change under a filled template
+        let mut rs = Rng::new(seed ^ 0xC13_F011);
+        let mut sk = Vec::new();
+        for t in 0..ntx {
+            sk.push(POp::Submit { t, remote: rs.chance(1, 4) });
+            if rs.chance(1, 3) {
+                sk.push(POp::Quiesce);
+            }
+        }
+        sk.push(POp::Quiesce);
+        for k in 0..(cfg.w_close + 4 + rs.range(0, 4)) {
+            sk.push(POp::Mine);
+            sk.push(POp::Quiesce);
+            if k >= cfg.w_close && rs.chance(1, 2) {
+                sk.push(POp::Sibling { seed: rs.below(1 << 40) });
+                if rs.chance(1, 2) {
+                    sk.push(POp::Quiesce);
+                } else {
+                    sk.push(POp::Take);
+                    sk.push(POp::Poll { k: rs.idx(8) });
+                }
+            }
+        }
+        sk.extend(ops.drain(..).take(30));
         ops = sk;
     }
     if prop == "C04" {
@@ -1170,6 +1210,10 @@ impl PoolExec {
                 self.il.write_u64(11);
                 self.foreign(*t, *seed);
             }
+            POp::Sibling { seed } => {
+                self.il.write_u64(12);
+                self.sibling(*seed);
+            }
             POp::Expire => {
                 self.il.write_u64(10);
                 // the service runs the expiry pass only inside a reorg notification, together with
@@ -1324,6 +1368,27 @@ impl PoolExec {
         }
         self.res.faults.inc("foreign_miner_blocks");
         self.ev(&format!("foreign t={t} -> tip #{}", self.tip_idx));
+    }
+
+    /// a sibling of the tip: stored as a side block (equal work, the first seen stays), announced to
+    /// the pool as a new uncle candidate
+    fn sibling(&mut self, seed: u64) {
+        let Some(parent) = self.w.blocks[self.tip_idx].parent else { return };
+        let tip_before = self.tip_idx;
+        let recipe = crate::scen::plain_recipe((seed << 8) ^ ((self.w.blocks.len() as u64) << 44), &[]);
+        let b = self.w.build_child(parent, &recipe);
+        if b == tip_before {
+            return;
+        }
+        let v = self.w.blocks[b].view.clone();
+        self.now = self.now.max(v.timestamp());
+        self.ft.set_faketime(self.now);
+        if let Some(Err(e)) = self.deliver(&v) {
+            self.res.harness_error = Some(format!("model-built sibling block rejected: {e}"));
+            return;
+        }
+        self.res.faults.inc("sibling_of_tip_delivered");
+        self.ev(&format!("sibling seed={seed} -> tip #{}", self.tip_idx));
     }
 
     /// a model-built competing branch that overtakes the tip
